@@ -2,7 +2,7 @@
    last removed (invariant RecInv on the text writeRecordPlaylist maintains by bytes.Index / TrimSuffix surgery). *)
 From Coq Require Import ZArith Bool List Lia.
 From Lal Require Import Common.LBytes Hls.HlsFloat Hls.HlsFs Hls.HlsPlaylist Hls.HlsMuxer Hls.HlsConsistent
-  Hls.HlsFsProofs Hls.HlsFloatProofs Hls.HlsTextProofs Hls.HlsInv Hls.HlsInvProofs Hls.HlsRunProofs Hls.HlsTraceProofs Hls.HlsFinalProofs.
+  Hls.HlsFsProofs Hls.HlsFloatProofs Hls.HlsTextProofs Hls.HlsInv Hls.HlsInvProofs Hls.HlsLiveProofs Hls.HlsRunProofs Hls.HlsTraceProofs Hls.HlsFinalProofs.
 Open Scope Z_scope.
 
 Definition rhead (T : Z) (rest : bytes) : bytes := (rec_pre ++ target_tag ++ dec T ++ 10%N :: rest)%list.
@@ -36,18 +36,20 @@ Proof.
 Qed.
 
 (* ---------- the record playlist lists every segment ---------- *)
+(* the first n fragments of THIS muxer (numbered from m_base on) *)
 Definition keys (m : mux) (n : nat) : list (Z * Z) :=
-  map (fun i => (hnow m (Z.of_nat i), Z.of_nat i)) (seq 0 n).
+  map (fun i => (hnow m (m_base m + Z.of_nat i), m_base m + Z.of_nat i)) (seq 0 n).
 
-Definition RecInv (c : cfg) (m : mux) (s : fs) : Prop :=
+(* pre: the segments created by earlier publications since the directory was last removed *)
+Definition RecInv (c : cfg) (m : mux) (s : fs) (pre : list (Z * Z)) : Prop :=
   0 <= f_num (m_recmax m) /\
-  (nclosed m = 0 -> fs_lookup PRec s = None) /\
-  (0 < nclosed m -> exists T segs, 0 <= T /\
+  (pre = [] -> nclosed m = m_base m -> fs_lookup PRec s = None) /\
+  (pre <> [] \/ m_base m < nclosed m -> exists T segs, 0 <= T /\
      fs_lookup PRec s = Some (mkfile (print_record (c_stream c) (mkpl T 0 segs true)) true) /\
-     map seg_key segs = keys m (Z.to_nat (nclosed m))).
+     map seg_key segs = (pre ++ keys m (Z.to_nat (nclosed m - m_base m)))%list).
 
 Definition R (c : cfg) (m : mux) (s : fs) (acc : list (Z * Z)) : Prop :=
-  RecInv c m s /\ acc = keys m (length (m_hist m)).
+  exists pre, RecInv c m s pre /\ acc = (pre ++ keys m (length (m_hist m)))%list.
 
 Definition mode01 (c : cfg) : Prop := (c_mode c =? 0) || (c_mode c =? 1) = true.
 
@@ -70,36 +72,42 @@ Proof.
 Qed.
 
 Lemma keys_ext m m' n :
-  (forall i, (i < n)%nat -> hnow m' (Z.of_nat i) = hnow m (Z.of_nat i)) -> keys m' n = keys m n.
+  m_base m' = m_base m ->
+  (forall i, (i < n)%nat -> hnow m' (m_base m + Z.of_nat i) = hnow m (m_base m + Z.of_nat i)) -> keys m' n = keys m n.
 Proof.
-  intros H. unfold keys. apply map_ext_in. intros i Hi. apply in_seq in Hi. rewrite H by lia. reflexivity.
+  intros Eb H. unfold keys. rewrite Eb. apply map_ext_in. intros i Hi. apply in_seq in Hi. rewrite H by lia. reflexivity.
 Qed.
 
-Lemma keys_S m n : keys m (S n) = (keys m n ++ [(hnow m (Z.of_nat n), Z.of_nat n)])%list.
+Lemma keys_S m n : keys m (S n) = (keys m n ++ [(hnow m (m_base m + Z.of_nat n), m_base m + Z.of_nat n)])%list.
 Proof. unfold keys. rewrite seq_S, map_app. reflexivity. Qed.
+
+Lemma hnow_own m i : hnow m (m_base m + Z.of_nat i) = nth i (m_hist m) 0.
+Proof. unfold hnow. f_equal. lia. Qed.
 
 Lemma R_open c m s ts d now acc :
   Inv c m s -> m_opened m = false -> R c m s acc ->
   let r := open_fragment c m ts d now in
   R c (fst r) (apply_all s (snd r)) (created_from acc (snd r)).
 Proof.
-  intros HI Ho [(Hr & H0 & Hp) Hacc]. cbn zeta. unfold open_fragment. cbn [fst snd].
-  set (n := m_frag m + m_nfrags m). set (m' := mkmux true ts _ _ _ _ _ _ _).
-  destruct HI as [_ _ _ H4 _ _ _ _ _ _ _ _ _]. rewrite Ho in H4. cbn [b2z] in H4. fold n in H4. unfold nclosed in H4. fold n in H4.
+  intros HI Ho (pre & (Hr & H0 & Hp) & Hacc). cbn zeta. unfold open_fragment. cbn [fst snd].
+  set (n := m_frag m + m_nfrags m). set (m' := mkmux true ts _ _ _ _ _ _ _ _ _).
+  destruct HI as [_ H2 _ H4 _ _ _ _ _ _ _ _ _]. rewrite Ho in H4. cbn [b2z] in H4. unfold nclosed in H4. fold n in H4.
   assert (Hn' : nclosed m' = nclosed m) by reflexivity.
-  assert (Hh : forall i, (i < length (m_hist m))%nat -> hnow m' (Z.of_nat i) = hnow m (Z.of_nat i)).
-  { intros i Hi. unfold hnow, m'. cbn [m_hist]. rewrite Nat2Z.id. apply app_nth1. exact Hi. }
+  assert (Hb' : m_base m' = m_base m) by reflexivity.
+  assert (Hh : forall i, (i < length (m_hist m))%nat -> hnow m' (m_base m + Z.of_nat i) = hnow m (m_base m + Z.of_nat i)).
+  { intros i Hi. rewrite <- Hb' at 1. rewrite !hnow_own. unfold m'. cbn [m_hist]. apply app_nth1. exact Hi. }
   assert (Hst : Forall rec_stable [OCreate (PTs now n); OWrite (PTs now n) (m_patpmt m)]).
   { repeat constructor; cbn; intuition discriminate. }
-  split; [split; [exact Hr|split]|].
-  - intros Hz. rewrite lookup_rec_stable by exact Hst. apply H0. now rewrite <- Hn'.
-  - intros Hz. rewrite lookup_rec_stable by exact Hst. rewrite Hn' in *. destruct (Hp Hz) as (T & segs & HT & Hl & Hk).
-    exists T, segs. repeat split; auto. rewrite Hk. symmetry. apply keys_ext. intros i Hi. apply Hh. unfold nclosed in *. lia.
+  exists pre. split; [split; [exact Hr|split]|].
+  - intros Hpre Hz. rewrite lookup_rec_stable by exact Hst. apply H0; [exact Hpre|]. now rewrite <- Hn', <- Hb'.
+  - intros Hz. rewrite lookup_rec_stable by exact Hst. rewrite Hn', Hb' in *. destruct (Hp Hz) as (T & segs & HT & Hl & Hk).
+    exists T, segs. repeat split; auto. rewrite Hk. f_equal. symmetry. apply keys_ext; [exact Hb'|].
+    intros i Hi. apply Hh. unfold nclosed in *. fold n in Hi. lia.
   - unfold created_from. cbn [fold_left created_step]. rewrite Hacc.
-    unfold m' at 2. cbn [m_hist]. rewrite app_length. cbn [length]. rewrite Nat.add_1_r, keys_S.
-    f_equal.
-    + symmetry. apply keys_ext. exact Hh.
-    + f_equal. f_equal; [|lia]. unfold hnow, m'. cbn [m_hist]. rewrite Nat2Z.id, app_nth2 by lia.
+    unfold m' at 2. cbn [m_hist]. rewrite app_length. cbn [length]. rewrite Nat.add_1_r, keys_S, <- app_assoc.
+    f_equal. f_equal.
+    + symmetry. apply keys_ext; [exact Hb'|exact Hh].
+    + f_equal. rewrite Hb'. f_equal; [|lia]. rewrite <- Hb'. rewrite hnow_own. unfold m'. cbn [m_hist]. rewrite app_nth2 by lia.
       rewrite Nat.sub_diag. reflexivity.
 Qed.
 
@@ -149,8 +157,8 @@ Lemma R_close c m s e acc :
   let r := close_fragment c m s e in
   R c (fst r) (apply_all s (snd r)) (created_from acc (snd r)).
 Proof.
-  intros HI Ho Hmode [(Hr & H0 & Hp) Hacc]. cbn zeta. unfold close_fragment. rewrite Ho. cbn [negb].
-  set (m0 := mkmux false (m_fragts m) (m_recmax m) (m_nfrags m) (m_frag m) (m_frags m) (m_patpmt m) (m_cur m) (m_hist m)).
+  intros HI Ho Hmode (pre & (Hr & H0 & Hp) & Hacc). cbn zeta. unfold close_fragment. rewrite Ho. cbn [negb].
+  set (m0 := mkmux false (m_fragts m) (m_recmax m) (m_nfrags m) (m_frag m) (m_frags m) (m_patpmt m) (m_cur m) (m_hist m) (m_base m) (m_pfrag m)).
   set (m1 := incr_frag c m0).
   set (ops1 := [OClose (m_cur m); OWriteFile PLiveBak (print_live (c_stream c) (live_playlist c m1 e)); ORename PLiveBak PLive]).
   unfold mode01 in Hmode. rewrite Hmode.
@@ -160,8 +168,9 @@ Proof.
   destruct HI as [H1 H2 H3 H4 H5 H6 H7 H8 H9 H10 H11 H12 H13].
   destruct (H6 Ho) as [(Hid & _ & Hnow) Hcur]. set (n := nclosed m) in *.
   rewrite Ho in H4. cbn [b2z] in H4.
-  destruct (incr_frag_facts c m0 H2) as (F1 & F2 & F3 & F4 & F5 & F6 & F7 & F8 & F9 & F10). fold m1 in F1, F2, F3, F4, F5, F6, F7, F8, F9, F10.
-  cbn [m0 m_opened m_frags m_hist m_cur m_patpmt m_fragts m_recmax] in F1, F2, F3, F4, F5, F6, F7.
+  destruct (incr_frag_facts c m0 H2) as (F1 & F2 & F3 & F4 & F5 & F6 & F7 & F8 & F9 & F10 & F11 & F12).
+  fold m1 in F1, F2, F3, F4, F5, F6, F7, F8, F9, F10, F11, F12.
+  cbn [m0 m_opened m_frags m_hist m_cur m_patpmt m_fragts m_recmax m_base m_pfrag] in F1, F2, F3, F4, F5, F6, F7, F11, F12.
   change (nclosed m0) with n in F8.
   assert (Hst1 : Forall rec_stable ops1).
   { unfold ops1. rewrite Hcur. repeat constructor; cbn; intuition discriminate. }
@@ -169,53 +178,55 @@ Proof.
   assert (Hl1 : fs_lookup PRec s1 = fs_lookup PRec s) by (apply lookup_rec_stable; exact Hst1).
   assert (Hcurfrag : get_frag c m1 (m_nfrags m1 - 1) = sl c m n).
   { rewrite get_frag_sl. unfold sl, get_slot. rewrite F2. f_equal. f_equal. f_equal. unfold nclosed in F8. lia. }
-  assert (Hn0 : 0 <= n) by (unfold n, nclosed; lia).
-  destruct (Z_lt_le_dec 0 n) as [Hpos|Hz0].
-  - destruct (Hp Hpos) as (T & segs & HT & Hl & Hk).
-    destruct (write_record_rec c m1 s1 segs) as (Wr & T' & HT' & Wl).
-    { rewrite F7. exact Hr. }
-    { rewrite Hcurfrag. apply H13. }
-    { right. exists T, segs. rewrite Hl1. auto. }
-    destruct (write_record c m1 s1) as [m2 ops2] eqn:E2. cbn [fst snd] in *.
-    rewrite Hl1, Hl in Wl.
-    destruct (write_record_shape c m1 s1 m2 ops2 E2) as ([r2 ->] & Hops2).
-    rewrite app_nil_r.
-    split; [split; [exact Wr|split]|].
-    + intros Hz. exfalso. change (nclosed (with_recmax m1 r2)) with (nclosed m1) in Hz. lia.
-    + intros _. exists T', (segs ++ [seg_of (get_frag c m1 (m_nfrags m1 - 1))])%list.
-      split; [exact HT'|]. split; [rewrite <- apply_all_app; exact Wl|].
-      change (nclosed (with_recmax m1 r2)) with (nclosed m1). rewrite F8.
-      replace (Z.to_nat (n + 1)) with (S (Z.to_nat n)) by lia. rewrite keys_S, map_app, Hk. f_equal.
-      * apply keys_ext. intros i _. unfold hnow. change (m_hist (with_recmax m1 r2)) with (m_hist m1). now rewrite F3.
-      * cbn [map]. rewrite Hcurfrag. unfold seg_key, seg_of. cbn [s_now s_id]. rewrite Hid, Hnow, Z2Nat.id by lia.
-        unfold hnow. change (m_hist (with_recmax m1 r2)) with (m_hist m1). now rewrite F3.
-    + rewrite created_from_none.
-      * rewrite Hacc. change (m_hist (with_recmax m1 r2)) with (m_hist m1). rewrite F3.
-        apply keys_ext. intros i _. unfold hnow. change (m_hist (with_recmax m1 r2)) with (m_hist m1). now rewrite F3.
-      * apply Forall_app. split; [unfold ops1; repeat constructor|].
-        pose proof (write_record_no_create c m1 s1) as Hnc. rewrite E2 in Hnc. exact Hnc.
-  - assert (Hn : n = 0) by lia.
-    destruct (write_record_rec c m1 s1 []) as (Wr & T' & HT' & Wl).
-    { rewrite F7. exact Hr. }
-    { rewrite Hcurfrag. apply H13. }
-    { left. rewrite Hl1. apply H0. exact Hn. }
-    destruct (write_record c m1 s1) as [m2 ops2] eqn:E2. cbn [fst snd] in *.
-    rewrite Hl1, (H0 Hn) in Wl.
-    destruct (write_record_shape c m1 s1 m2 ops2 E2) as ([r2 ->] & Hops2).
-    rewrite app_nil_r.
-    split; [split; [exact Wr|split]|].
-    + intros Hz. exfalso. change (nclosed (with_recmax m1 r2)) with (nclosed m1) in Hz. lia.
-    + intros _. exists T', [seg_of (get_frag c m1 (m_nfrags m1 - 1))].
-      split; [exact HT'|]. split; [rewrite <- apply_all_app; exact Wl|].
-      change (nclosed (with_recmax m1 r2)) with (nclosed m1). rewrite F8, Hn.
-      replace (Z.to_nat (0 + 1)) with 1%nat by reflexivity. unfold keys. cbn [seq map Z.of_nat].
-      rewrite Hcurfrag. unfold seg_key, seg_of. cbn [s_now s_id]. rewrite Hid, Hnow, Hn.
-      unfold hnow. change (m_hist (with_recmax m1 r2)) with (m_hist m1). now rewrite F3.
-    + rewrite created_from_none.
-      * rewrite Hacc. change (m_hist (with_recmax m1 r2)) with (m_hist m1). rewrite F3.
-        apply keys_ext. intros i _. unfold hnow. change (m_hist (with_recmax m1 r2)) with (m_hist m1). now rewrite F3.
-      * apply Forall_app. split; [unfold ops1; repeat constructor|].
-        pose proof (write_record_no_create c m1 s1) as Hnc. rewrite E2 in Hnc. exact Hnc.
+  assert (Hbn : m_base m <= n) by (unfold n, nclosed; lia).
+  (* what the record playlist lists so far *)
+  set (old := (pre ++ keys m (Z.to_nat (n - m_base m)))%list).
+  assert (Hold : fs_lookup PRec s = None /\ old = [] \/
+                 exists T segs, 0 <= T /\ fs_lookup PRec s = Some (mkfile (print_record (c_stream c) (mkpl T 0 segs true)) true) /\ map seg_key segs = old).
+  { destruct pre as [|k0 pre'].
+    - destruct (Z.eq_dec n (m_base m)) as [Hz|Hz].
+      + left. split; [now apply H0|]. unfold old. rewrite Hz, Z.sub_diag. reflexivity.
+      + right. apply Hp. right. lia.
+    - right. apply Hp. left. discriminate. }
+  assert (Hkeys1 : forall r2, keys (with_recmax m1 r2) (Z.to_nat (nclosed m1 - m_base m1)) =
+                   (keys m (Z.to_nat (n - m_base m)) ++ [seg_key (seg_of (get_frag c m1 (m_nfrags m1 - 1)))])%list).
+  { intros r2. rewrite F8, F11. replace (Z.to_nat (n + 1 - m_base m)) with (S (Z.to_nat (n - m_base m))) by lia.
+    rewrite keys_S. change (m_base (with_recmax m1 r2)) with (m_base m1). rewrite F11. f_equal.
+    - apply keys_ext; [exact F11|]. intros i _. unfold hnow. change (m_hist (with_recmax m1 r2)) with (m_hist m1).
+      change (m_base (with_recmax m1 r2)) with (m_base m1). now rewrite F3, F11.
+    - rewrite Hcurfrag. unfold seg_key, seg_of. cbn [s_now s_id]. rewrite Hid, Hnow, Z2Nat.id by lia.
+      replace (m_base m + (n - m_base m)) with n by lia.
+      unfold hnow. change (m_hist (with_recmax m1 r2)) with (m_hist m1). change (m_base (with_recmax m1 r2)) with (m_base m1). now rewrite F3, F11. }
+  assert (Hacc1 : forall r2, (pre ++ keys (with_recmax m1 r2) (length (m_hist (with_recmax m1 r2))))%list = acc).
+  { intros r2. rewrite Hacc. f_equal. change (m_hist (with_recmax m1 r2)) with (m_hist m1). rewrite F3.
+    apply keys_ext; [exact F11|]. intros i _. unfold hnow. change (m_hist (with_recmax m1 r2)) with (m_hist m1).
+    change (m_base (with_recmax m1 r2)) with (m_base m1). now rewrite F3, F11. }
+  assert (Hcase : exists T0,
+            (fs_lookup PRec s1 = None \/
+             exists T segs, 0 <= T /\ fs_lookup PRec s1 = Some (mkfile (print_record (c_stream c) (mkpl T 0 segs true)) true) /\ T0 = segs) /\
+            map seg_key (match fs_lookup PRec s1 with Some _ => T0 | None => [] end) = old).
+  { destruct Hold as [[Hnone Hempty]|(T & segs & HT & Hl & Hk)].
+    - exists []. rewrite Hl1, Hnone. split; [now left|]. now rewrite Hempty.
+    - exists segs. rewrite Hl1, Hl. split; [right; exists T, segs; auto|exact Hk]. }
+  destruct Hcase as (T0 & Hl0 & Hk0).
+  destruct (write_record_rec c m1 s1 T0) as (Wr & T' & HT' & Wl).
+  { rewrite F7. exact Hr. }
+  { rewrite Hcurfrag. apply H13. }
+  { exact Hl0. }
+  destruct (write_record c m1 s1) as [m2 ops2] eqn:E2. cbn [fst snd] in *.
+  destruct (write_record_shape c m1 s1 m2 ops2 E2) as ([r2 ->] & Hops2).
+  rewrite app_nil_r.
+  exists pre. split; [split; [exact Wr|split]|].
+  - intros _ Hz. exfalso. change (nclosed (with_recmax m1 r2)) with (nclosed m1) in Hz.
+    change (m_base (with_recmax m1 r2)) with (m_base m1) in Hz. lia.
+  - intros _. change (nclosed (with_recmax m1 r2)) with (nclosed m1). change (m_base (with_recmax m1 r2)) with (m_base m1) at 1.
+    rewrite Hkeys1, app_assoc. fold old.
+    exists T', ((match fs_lookup PRec s1 with Some _ => T0 | None => [] end) ++ [seg_of (get_frag c m1 (m_nfrags m1 - 1))])%list.
+    split; [exact HT'|]. split; [rewrite <- apply_all_app; exact Wl|]. rewrite map_app, Hk0. reflexivity.
+  - rewrite created_from_none.
+    + symmetry. apply Hacc1.
+    + apply Forall_app. split; [unfold ops1; repeat constructor|].
+      pose proof (write_record_no_create c m1 s1) as Hnc. rewrite E2 in Hnc. exact Hnc.
 Qed.
 
 Lemma R_close_any c m s e acc :
@@ -262,7 +273,7 @@ Proof.
     pose proof (R_reopen c m1 (apply_all s o1) ts b false now _ I1 Hpp Hmode H1) as H3.
     destruct (reopen c m1 (apply_all s o1) ts b false now) as [m3 o3]. cbn [fst snd] in *.
     now rewrite <- apply_all_app, created_from_app.
-  - destruct (upd_dur_cur c m s ts HI Ho Ef) as (A2 & _ & _ & D2 & _).
+  - destruct (upd_dur_cur c m s ts HI Ho Ef) as (A2 & _ & _ & _ & D2 & _).
     pose proof (R_upd_dur c m s (slot c m (m_nfrags m)) ts acc HR) as H2.
     destruct (f_ltb _ _); [exact H2|].
     rewrite <- D2 in Hpp. cbn [apply_all fold_left].
@@ -282,8 +293,8 @@ Proof.
   destruct (update_ok c m s _ b now m1 o1 HI Hpp E1) as (_ & I1 & _).
   destruct I1 as [_ _ _ _ _ G6 _ _ _ _ _ _ _]. destruct (G6 Ho1) as [_ Hcur].
   rewrite <- apply_all_app, created_from_app. unfold created_from at 1. cbn [fold_left created_step].
-  destruct H1 as [(Hr & H0 & Hp) Hacc]. split; [split; [exact Hr|split]|exact Hacc].
-  - intros Hz. rewrite apply_all_cons, apply_all_nil. rewrite lookup_apply_other; [now apply H0|exact I|].
+  destruct H1 as (pre & (Hr & H0 & Hp) & Hacc). exists pre. split; [split; [exact Hr|split]|exact Hacc].
+  - intros Hpre Hz. rewrite apply_all_cons, apply_all_nil. rewrite lookup_apply_other; [now apply H0|exact I|].
     rewrite Hcur. cbn. intuition discriminate.
   - intros Hz. rewrite apply_all_cons, apply_all_nil. rewrite lookup_apply_other; [now apply Hp|exact I|].
     rewrite Hcur. cbn. intuition discriminate.
@@ -296,91 +307,133 @@ Definition winvR (c : cfg) (st : phase) (w : world) (m : mux) (acc : list (Z * Z
   | Dirty => R c m (w_fs w) acc /\ m_opened m = false
   end.
 
-Lemma R_new c : R c (new_mux c) [] [].
+Lemma start_mux_fresh c s : exists b pf rd, start_mux c s = (fresh_mux c b pf, [OMkdirAll PDir; OReadFile PLive rd]).
 Proof.
-  split; [|reflexivity]. split; [cbn; lia|]. split; [reflexivity|].
-  intros H. unfold nclosed in H. cbn in H. lia.
+  unfold start_mux. destruct (fs_lookup PLive s) as [f|].
+  - destruct (next_seq (fdata f)) as [[q n]|].
+    + exists (q + n), q, true. reflexivity.
+    + exists 0, 0, true. reflexivity.
+  - exists 0, 0, false. reflexivity.
+Qed.
+
+(* a muxer that has just started: everything created so far belongs to earlier publications *)
+Lemma R_fresh c b pf s acc :
+  (acc = [] -> fs_lookup PRec s = None) ->
+  (acc <> [] -> exists T segs, 0 <= T /\
+     fs_lookup PRec s = Some (mkfile (print_record (c_stream c) (mkpl T 0 segs true)) true) /\ map seg_key segs = acc) ->
+  R c (fresh_mux c b pf) s acc.
+Proof.
+  intros H0 Hp. exists acc. split; [|cbn; now rewrite app_nil_r].
+  split; [cbn; lia|]. split.
+  - intros Ha _. now apply H0.
+  - intros [Ha|Hlt]; [|unfold nclosed in Hlt; cbn in Hlt; lia].
+    destruct (Hp Ha) as (T & segs & HT & Hl & Hk). exists T, segs. split; [exact HT|]. split; [exact Hl|].
+    unfold nclosed. cbn. rewrite Z.add_0_r, Z.sub_diag. cbn. now rewrite app_nil_r.
 Qed.
 
 Lemma R_patpmt c m b s acc : R c m s acc -> R c (with_patpmt m b) s acc.
 Proof. destruct m. auto. Qed.
 
-Lemma stepR_ok c st w m acc e mx o :
-  cfg_ok c -> mode01 c -> winv c st w m -> winvR c st w m acc -> wf_head c st e -> step c w e = (mx, o) ->
-  exists m1, winv c (next_phase c st e) (mkworld mx (apply_all (w_fs w) o)) m1 /\
+Lemma keys_nil_length m n : keys m n = [] -> n = 0%nat.
+Proof. destruct n; [reflexivity|]. rewrite keys_S. intros H. apply app_eq_nil in H. destruct H; discriminate. Qed.
+
+Lemma stepR_ok c st n w m acc e mx o :
+  cfg_ok c -> mode01 c -> winv c st n w m -> winvR c st w m acc -> wf_head c st n e -> step c w e = (mx, o) ->
+  exists m1, winv c (next_phase c st e) (next_n c st n e) (mkworld mx (apply_all (w_fs w) o)) m1 /\
              winvR c (next_phase c st e) (mkworld mx (apply_all (w_fs w) o)) m1 (created_from acc o).
 Proof.
-  intros Hc Hmode HW HR Hh E. destruct w as [wm s]. cbn [w_fs] in *.
+  intros Hc Hmode HW HR Hh E.
+  destruct (step_ok c st n w m e mx o Hc HW Hh E) as (m1 & _ & HW1).
+  destruct w as [wm s]. cbn [w_fs] in *.
   destruct st as [|r|].
-  - destruct HW as (Hm & Hs & ->). cbn in Hm, Hs, HR. subst wm s acc.
-    destruct e; cbn in E; injection E as <- <-; cbn [next_phase];
-      try (exists (new_mux c); split; [cbn; auto|reflexivity]).
-    + exists (new_mux c). split.
-      * cbn. split; [reflexivity|]. split; [now apply inv_new|discriminate].
-      * cbn. apply R_new.
-    + exists (new_mux c). destruct ((c_mode c =? 1) || (c_mode c =? 2)); (split; [cbn; auto|reflexivity]).
-  - destruct HW as (Hm & HI & Hr). cbn in Hm, HI, HR. subst wm.
-    destruct e; cbn [step w_mux w_fs] in E; cbn [next_phase].
-    + injection E as <- <-. exists m. split; [cbn; auto|exact HR].
-    + injection E as <- <-. exists (with_patpmt m b). split.
-      * cbn. split; [reflexivity|]. split; [now apply inv_with_patpmt|]. intros _. destruct m; exact Hh.
-      * cbn. now apply R_patpmt.
+  - destruct HW as (Hm & Hs & -> & Hn0). cbn in Hm, Hs, HR. subst wm s acc.
+    destruct e; cbn [step w_mux w_fs] in E; cbn [next_phase next_n] in *.
+    + destruct (start_mux_fresh c []) as (b & pf & rd & Es). rewrite Es in E. injection E as <- <-.
+      exists m1. split; [exact HW1|]. destruct HW1 as (Hm1 & _). cbn in Hm1. injection Hm1 as <-.
+      cbn [winvR w_fs apply_all fold_left apply]. unfold created_from. cbn [fold_left created_step].
+      apply R_fresh; [reflexivity|congruence].
+    + injection E as <- <-. exists m1. split; [exact HW1|reflexivity].
+    + injection E as <- <-. exists m1. split; [exact HW1|reflexivity].
+    + injection E as <- <-. exists m1. split; [exact HW1|reflexivity].
+    + injection E as <- <-. exists m1. split; [exact HW1|].
+      destruct ((c_mode c =? 1) || (c_mode c =? 2)); reflexivity.
+  - destruct HW as (Hm & HI & Hr & Hn). cbn in Hm, HI, HR. subst wm.
+    destruct e; cbn [step w_mux w_fs] in E; cbn [next_phase next_n] in *.
+    + injection E as <- <-. exists m1. split; [exact HW1|]. destruct HW1 as (Hm1 & _). cbn in Hm1. injection Hm1 as <-. exact HR.
+    + injection E as <- <-. exists m1. split; [exact HW1|]. destruct HW1 as (Hm1 & _). cbn in Hm1. injection Hm1 as <-.
+      cbn. now apply R_patpmt.
     + destruct Hh as [-> Hpk].
       pose proof (R_feed c m s audio pts dts boundary now pk acc HI (Hr eq_refl) Hmode HR) as H1.
-      destruct (feed c m s audio pts dts boundary now pk) as [m1 o1] eqn:E1. injection E as <- <-. cbn [fst snd] in H1.
-      destruct (feed_ok c m s audio pts dts boundary now pk m1 o1 HI (Hr eq_refl) Hpk E1) as (_ & B & C).
-      exists m1. split; [|exact H1]. cbn. split; [reflexivity|]. split; [exact B|]. intros _. rewrite C. now apply Hr.
+      destruct (feed c m s audio pts dts boundary now pk) as [m2 o1] eqn:E1. injection E as <- <-. cbn [fst snd] in H1.
+      exists m1. split; [exact HW1|]. destruct HW1 as (Hm1 & _). cbn in Hm1. injection Hm1 as <-. exact H1.
     + pose proof (R_close_any c m s true acc HI Hmode HR) as H1.
-      destruct (close_fragment c m s true) as [m1 o1] eqn:E1. injection E as <- <-. cbn [fst snd] in H1.
-      destruct (close_any c m s true m1 o1 HI E1) as (_ & B & C & _).
-      exists m1. split; [cbn; auto|]. cbn. auto.
-    + injection E as <- <-. exists m. split; [cbn; auto|exact HR].
-  - destruct HW as (Hm & HI). cbn in Hm, HI, HR. subst wm.
-    destruct e; cbn in E; try (injection E as <- <-); cbn [next_phase];
-      try (exists m; split; [cbn; auto|exact HR]).
-    + destruct Hh.
-    + destruct ((c_mode c =? 1) || (c_mode c =? 2)).
-      * exists (new_mux c). split; [cbn; auto|reflexivity].
-      * exists m. split; [cbn; auto|exact HR].
+      destruct (close_fragment c m s true) as [m2 o1] eqn:E1. injection E as <- <-. cbn [fst snd] in H1.
+      destruct (close_any c m s true m2 o1 HI E1) as (_ & B & C & _).
+      exists m2. split; [|cbn; auto]. destruct HW1 as (Hm1 & HI1 & Hn1). cbn in Hm1.
+      cbn. split; [reflexivity|]. split; [exact B|].
+      pose proof (close_count c m s true) as Hcnt. rewrite E1 in Hcnt. cbn [snd] in Hcnt.
+      destruct (close_any c m s true m2 o1 HI E1) as (A & _).
+      pose proof (chain_nclosed_le c m s o1 m2 A ltac:(lia)). pose proof (inv_nclosed_nonneg c m2 _ B). lia.
+    + injection E as <- <-. exists m1. split; [exact HW1|]. destruct HW1 as (Hm1 & _). cbn in Hm1. injection Hm1 as <-. exact HR.
+  - destruct HW as (Hm & HI & Hn). cbn in Hm, HI. destruct HR as [HR Ho]. subst wm.
+    destruct e; cbn [step w_mux w_fs] in E; cbn [next_phase next_n] in *.
+    + (* re-publish over the directory of the previous publication: the record playlist is carried on with *)
+      destruct (start_mux_fresh c s) as (b & pf & rd & Es). rewrite Es in E. injection E as <- <-.
+      exists m1. split; [exact HW1|]. destruct HW1 as (Hm1 & _). cbn in Hm1. injection Hm1 as <-.
+      cbn [winvR w_fs apply_all fold_left apply]. unfold created_from. cbn [fold_left created_step].
+      destruct HR as (pre & (Hrm & H0 & Hp) & Hacc).
+      destruct HI as [_ _ _ H4 _ _ _ _ _ _ _ _ _]. rewrite Ho in H4. cbn [b2z] in H4.
+      assert (Hlen : length (m_hist m) = Z.to_nat (nclosed m - m_base m)) by lia.
+      apply R_fresh.
+      * intros Ha. rewrite Ha in Hacc. symmetry in Hacc. apply app_eq_nil in Hacc. destruct Hacc as [Hpre Hk].
+        apply keys_nil_length in Hk. apply H0; [exact Hpre|lia].
+      * intros Ha. rewrite Hacc, Hlen. apply Hp.
+        destruct pre as [|k0 pre']; [|left; discriminate]. right.
+        cbn [app] in Hacc. rewrite Hacc in Ha. destruct (length (m_hist m)) eqn:El; [exfalso; now apply Ha|]. lia.
+    + injection E as <- <-. exists m. split; [cbn; auto|cbn; auto].
+    + injection E as <- <-. exists m. split; [cbn; auto|cbn; auto].
+    + injection E as <- <-. exists m. split; [cbn; auto|cbn; auto].
+    + injection E as <- <-. destruct ((c_mode c =? 1) || (c_mode c =? 2)).
+      * exists (new_mux c). split; [cbn; repeat split; lia|reflexivity].
+      * exists m. split; [cbn; auto|cbn; auto].
 Qed.
 
-Lemma runR c : cfg_ok c -> mode01 c -> forall evs st w m acc,
-  winv c st w m -> winvR c st w m acc -> wf_evs c st evs ->
-  exists m', winv c (final_phase c st evs) (final_world c w evs) m' /\
+Lemma runR c : cfg_ok c -> mode01 c -> forall evs st n w m acc,
+  winv c st n w m -> winvR c st w m acc -> wf_evs c st n evs ->
+  exists m', winv c (final_phase c st evs) (final_n c st n evs) (final_world c w evs) m' /\
              winvR c (final_phase c st evs) (final_world c w evs) m' (created_from acc (run_from c w evs)).
 Proof.
-  intros Hc Hmode. induction evs as [|e t IH]; intros st w m acc HW HR Hwf.
+  intros Hc Hmode. induction evs as [|e t IH]; intros st n w m acc HW HR Hwf.
   - exists m. split; [exact HW|exact HR].
   - apply wf_evs_cons in Hwf. destruct Hwf as [Hh Ht].
-    cbn [final_world final_phase run_from]. destruct (step c w e) as [mx o] eqn:E.
-    destruct (stepR_ok c st w m acc e mx o Hc Hmode HW HR Hh E) as (m1 & A & B).
-    destruct (IH _ _ m1 _ A B Ht) as (m' & C & D). cbn [w_fs] in D.
+    cbn [final_world final_phase final_n run_from]. destruct (step c w e) as [mx o] eqn:E.
+    destruct (stepR_ok c st n w m acc e mx o Hc Hmode HW HR Hh E) as (m1 & A & B).
+    destruct (IH _ _ _ m1 _ A B Ht) as (m' & C & D). cbn [w_fs] in D.
     exists m'. split; [exact C|]. rewrite created_from_app. exact D.
 Qed.
 
 (* after Dispose, cleanup mode 0 or 1: the record playlist lists every segment created since the directory was
-   last removed, in order, and carries the end marker *)
+   last removed (by this and by earlier publications), in order, and carries the end marker *)
 Theorem final_record c evs :
-  cfg_ok c -> mode01 c -> wf_evs c Clean (evs ++ [EvDispose]) ->
+  cfg_ok c -> mode01 c -> wf_evs c Clean 0 (evs ++ [EvDispose]) ->
   let ops := run c (evs ++ [EvDispose]) in
   created_from [] ops <> [] ->
   exists T segs, fs_lookup PRec (apply_all [] ops) = Some (mkfile (print_record (c_stream c) (mkpl T 0 segs true)) true)
                  /\ map seg_key segs = created_from [] ops.
 Proof.
   intros Hc Hmode Hwf ops Hne.
-  assert (HW : winv c Clean world0 (new_mux c)) by (cbn; auto).
-  destruct (runR c Hc Hmode _ Clean world0 (new_mux c) [] HW eq_refl Hwf) as (m' & A & B).
+  assert (HW : winv c Clean 0 world0 (new_mux c)) by (cbn; repeat split; lia).
+  destruct (runR c Hc Hmode _ Clean 0 world0 (new_mux c) [] HW eq_refl Hwf) as (m' & A & B).
   fold (run c (evs ++ [EvDispose])) in B. fold ops in B.
   unfold ops at 1. unfold run. change [] with (w_fs world0) at 1. rewrite <- final_world_fs.
   destruct (final_phase c Clean (evs ++ [EvDispose])) as [|r|] eqn:Ep.
   - cbn in B. congruence.
   - exfalso. rewrite final_phase_app in Ep. destruct (final_phase c Clean evs); cbn in Ep; discriminate.
-  - destruct B as [[(Hr & H0 & Hp) Hacc] Ho]. destruct A as (_ & HI).
+  - destruct B as [(pre & (Hr & H0 & Hp) & Hacc) Ho]. destruct A as (_ & HI & _).
     destruct HI as [_ _ _ H4 _ _ _ _ _ _ _ _ _]. rewrite Ho in H4. cbn [b2z] in H4.
-    assert (Hlen : length (m_hist m') = Z.to_nat (nclosed m')) by lia.
-    assert (Hpos : 0 < nclosed m').
-    { destruct (Z_lt_le_dec 0 (nclosed m')) as [H|H]; [exact H|]. exfalso. apply Hne. rewrite Hacc, Hlen.
-      replace (Z.to_nat (nclosed m')) with 0%nat by lia. reflexivity. }
-    destruct (Hp Hpos) as (T & segs & _ & Hl & Hk). exists T, segs. split; [exact Hl|].
-    rewrite Hk, Hacc, Hlen. reflexivity.
+    assert (Hlen : length (m_hist m') = Z.to_nat (nclosed m' - m_base m')) by lia.
+    destruct (Hp) as (T & segs & _ & Hl & Hk).
+    { destruct pre as [|k0 pre']; [|left; discriminate]. right.
+      cbn [app] in Hacc. rewrite Hacc in Hne. destruct (length (m_hist m')) eqn:El; [exfalso; now apply Hne|]. lia. }
+    exists T, segs. split; [exact Hl|]. rewrite Hk, Hacc, Hlen. reflexivity.
 Qed.
